@@ -1,6 +1,7 @@
 import HappyProofs.C06.Run
 import HappyProofs.C06.TimeWindow
 import HappyProofs.C06.PcFrame
+import HappyProofs.C06.Cancel
 /-!
 # C06 — property theorems
 
@@ -17,7 +18,7 @@ different targets; any jobs; any probes) and **every** schedule `tr` of processe
 well-formed (`WF`: each fault event at most once, activation before deactivation — what the engine's
 exactly-once, ordered delivery gives) and legitimate (`Legit`: only events of scheduled,
 not-cancelled faults — cancelled events are never delivered).  "Active at step k" is
-`activeAfter (tr.take k)`: activated and not yet deactivated among the first `k` processed events.
+`activeAfter c.faults (tr.take k)`: activated and not yet deactivated among the first `k` processed events.
 -/
 set_option linter.unusedSimpArgs false
 namespace HappyModel.C06
@@ -42,27 +43,27 @@ theorem stateAt_succ (c : Case) (tr : List Pop) (k : Nat) (p : Pop) (hp : tr[k]?
     down ⇔ (number of active crash/pause windows on the entity) > 0; blocked ⇔ active partitions
     covering the direction; latency = base + Σ active extras; loss = min(1, base + Σ active extras);
     capacity = base × Π active factors. -/
-theorem effect_iff_active (c : Case) (tr : List Pop) (k : Nat) (hwf : WF tr) (hl : Legit c tr) :
-    Effects c (stateAt c tr k).ws (activeAfter (tr.take k)) :=
+theorem effect_iff_active (c : Case) (tr : List Pop) (k : Nat) (hwf : WF c.faults tr) (hl : Legit c tr) :
+    Effects c (stateAt c tr k).ws (activeAfter c.faults (tr.take k)) :=
   effects_of_inv c _ _ (inv_at c tr k hwf hl)
 
 /-- in particular: a direction is blocked ⇔ some partition window covering it is active -/
-theorem blocked_iff_covering_window_active (c : Case) (tr : List Pop) (k : Nat) (hwf : WF tr)
+theorem blocked_iff_covering_window_active (c : Case) (tr : List Pop) (k : Nat) (hwf : WF c.faults tr)
     (hl : Legit c tr) (a b : Nat) :
     (stateAt c tr k).ws.blocked a b = true ↔
-      ∃ f ∈ activeAfter (tr.take k), covers c.faults f a b := by
+      ∃ f ∈ activeAfter c.faults (tr.take k), covers c.faults f a b := by
   rw [(effect_iff_active c tr k hwf hl).blocked a b]; exact specBlocked_iff _ _ _ _
 
 /-- … and an entity is down ⇔ some crash/pause window on it is active -/
-theorem down_iff_window_active (c : Case) (tr : List Pop) (k : Nat) (hwf : WF tr)
+theorem down_iff_window_active (c : Case) (tr : List Pop) (k : Nat) (hwf : WF c.faults tr)
     (hl : Legit c tr) (e : Nat) :
     (stateAt c tr k).ws.down e = true ↔
-      ∃ f ∈ activeAfter (tr.take k), 0 < downC c.faults f e := by
+      ∃ f ∈ activeAfter c.faults (tr.take k), 0 < downC c.faults f e := by
   rw [(effect_iff_active c tr k hwf hl).down e, decide_eq_true_eq]; exact specDown_pos_iff _ _ _
 
 /-- **all_ended_restores_base** — once every window has ended the configured state is back -/
-theorem all_ended_restores_base (c : Case) (tr : List Pop) (k : Nat) (hwf : WF tr) (hl : Legit c tr)
-    (hend : activeAfter (tr.take k) = []) :
+theorem all_ended_restores_base (c : Case) (tr : List Pop) (k : Nat) (hwf : WF c.faults tr) (hl : Legit c tr)
+    (hend : activeAfter c.faults (tr.take k) = []) :
     (∀ e, (stateAt c tr k).ws.down e = false) ∧
     (∀ a b, (stateAt c tr k).ws.blocked a b = false) ∧
     (∀ a b, (stateAt c tr k).ws.latOf (c.baseLat a b) a b = c.baseLat a b) ∧
@@ -101,8 +102,8 @@ theorem untouched_dropPop (s : St) (p : Pop) : Untouched s (dropPop s p) := by
     resumption, no emission), no process of any entity advances, nothing is emitted, no future,
     grant or resource waiter changes; the dropped process never resumes (`dropPop`). -/
 theorem crashed_executes_nothing (c : Case) (tr : List Pop) (k : Nat) (p : Pop) (e : Nat)
-    (hwf : WF tr) (hl : Legit c tr) (hp : tr[k]? = some p) (he : popEntity c p = some e)
-    (hdown : ∃ f ∈ activeAfter (tr.take k), 0 < downC c.faults f e) :
+    (hwf : WF c.faults tr) (hl : Legit c tr) (hp : tr[k]? = some p) (he : popEntity c p = some e)
+    (hdown : ∃ f ∈ activeAfter c.faults (tr.take k), 0 < downC c.faults f e) :
     (step c (stateAt c tr k) p).2 = [] ∧
     stateAt c tr (k + 1) = dropPop (stateAt c tr k) p ∧
     Untouched (stateAt c tr k) (stateAt c tr (k + 1)) := by
@@ -117,8 +118,8 @@ theorem crashed_executes_nothing (c : Case) (tr : List Pop) (k : Nat) (p : Pop) 
     entity resolving a future it is parked on, a grant being released to it, a fault event), the
     program counter of each of its jobs stays where it is -/
 theorem no_process_of_down_entity_advances (c : Case) (tr : List Pop) (k i : Nat) (p : Pop)
-    (hwf : WF tr) (hl : Legit c tr) (hp : tr[k]? = some p)
-    (hdown : ∃ f ∈ activeAfter (tr.take k), 0 < downC c.faults f (c.job i).ent) :
+    (hwf : WF c.faults tr) (hl : Legit c tr) (hp : tr[k]? = some p)
+    (hdown : ∃ f ∈ activeAfter c.faults (tr.take k), 0 < downC c.faults f (c.job i).ent) :
     ((stateAt c tr (k + 1)).procs i).pc = ((stateAt c tr k).procs i).pc := by
   by_cases hj : popJob p = some i
   · cases p with
@@ -134,8 +135,8 @@ theorem no_process_of_down_entity_advances (c : Case) (tr : List Pop) (k i : Nat
     as by the fault-free engine (`stepOpen` never looks at the crash state), whatever windows are
     active on other entities -/
 theorem others_ungated (c : Case) (tr : List Pop) (k : Nat) (p : Pop) (e : Nat)
-    (hwf : WF tr) (hl : Legit c tr) (he : popEntity c p = some e)
-    (hup : ∀ f ∈ activeAfter (tr.take k), downC c.faults f e = 0) :
+    (hwf : WF c.faults tr) (hl : Legit c tr) (he : popEntity c p = some e)
+    (hup : ∀ f ∈ activeAfter c.faults (tr.take k), downC c.faults f e = 0) :
     step c (stateAt c tr k) p = stepOpen c (stateAt c tr k) p := by
   have hd : (stateAt c tr k).ws.down e = false := by
     cases h : (stateAt c tr k).ws.down e with
@@ -148,8 +149,8 @@ theorem others_ungated (c : Case) (tr : List Pop) (k : Nat) (p : Pop) (e : Nat)
 /-- **restart_resumes** — once every crash/pause window on an entity has ended, a job delivered to
     it is entered and an in-flight process of it whose wake-up is due resumes -/
 theorem restart_resumes (c : Case) (tr : List Pop) (k t j : Nat) (cont : Bool)
-    (hwf : WF tr) (hl : Legit c tr)
-    (hup : ∀ f ∈ activeAfter (tr.take k), downC c.faults f (c.job j).ent = 0) :
+    (hwf : WF c.faults tr) (hl : Legit c tr)
+    (hup : ∀ f ∈ activeAfter c.faults (tr.take k), downC c.faults f (c.job j).ent = 0) :
     (cont = false → ((stateAt c tr k).procs j).st = .idle →
       ∃ rest, (step c (stateAt c tr k) (.job t j false)).2 = .enter :: rest) ∧
     (cont = true → (((stateAt c tr k).procs j).st = .sleeping t ∨ ((stateAt c tr k).procs j).st = .ready) →
@@ -164,12 +165,12 @@ theorem restart_resumes (c : Case) (tr : List Pop) (k t j : Nat) (cont : Bool)
 
 /-! ### cancelled faults -/
 
-theorem not_mem_foldl_actStep (f : Nat) : ∀ (tr : List Pop) (act : List Nat),
-    (∀ t a, Pop.fault t f a ∉ tr) → f ∉ act → f ∉ tr.foldl actStep act
+theorem not_mem_foldl_actStep (fs : List Fault) (f : Nat) : ∀ (tr : List Pop) (act : List Nat),
+    (∀ t a, Pop.fault t f a ∉ tr) → f ∉ act → f ∉ tr.foldl (actStep fs) act
   | [], act, _, h => by simpa using h
   | p :: rest, act, hno, h => by
     simp only [List.foldl_cons]
-    apply not_mem_foldl_actStep f rest
+    apply not_mem_foldl_actStep fs f rest
     · intro t a hm; exact hno t a (List.mem_cons_of_mem _ hm)
     · cases p with
       | fault t g a =>
@@ -177,6 +178,7 @@ theorem not_mem_foldl_actStep (f : Nat) : ∀ (tr : List Pop) (act : List Nat),
         cases a with
         | true => simp only [actStep, List.mem_cons, not_or]; exact ⟨fun h' => hg h'.symm, h⟩
         | false => simp only [actStep]; exact fun hm => h (List.mem_of_mem_erase hm)
+      | healall t => simp only [actStep]; exact fun hm => h (List.mem_filter.mp hm).1
       | _ => simpa [actStep] using h
 
 theorem take_subset_no_fault {f : Nat} {tr : List Pop} (k : Nat)
@@ -201,22 +203,22 @@ theorem prodOver_congr (act : List Nat) (g g' : Nat → Nat) (h : ∀ x ∈ act,
     what it would be if *any other fault* `g` stood in its place in the plan: the cancelled fault's
     kind, target, parameters and window have no effect at all. -/
 theorem cancelled_fault_is_noop (c : Case) (tr : List Pop) (k f : Nat) (g : Fault)
-    (hwf : WF tr) (hl : Legit c tr) (hno : ∀ t a, Pop.fault t f a ∉ tr) :
-    f ∉ activeAfter (tr.take k) ∧
+    (hwf : WF c.faults tr) (hl : Legit c tr) (hno : ∀ t a, Pop.fault t f a ∉ tr) :
+    f ∉ activeAfter c.faults (tr.take k) ∧
     (let c' := { c with faults := c.faults.set f g }
      ∀ e a b,
-      (stateAt c tr k).ws.down e = decide (0 < specDown c'.faults (activeAfter (tr.take k)) e) ∧
-      (stateAt c tr k).ws.blocked a b = specBlocked c'.faults (activeAfter (tr.take k)) a b ∧
-      (stateAt c tr k).ws.latOf (c.baseLat a b) a b = specLat c' (activeAfter (tr.take k)) a b ∧
-      (stateAt c tr k).ws.lossOf (c.baseLoss a b) a b = specLoss c' (activeAfter (tr.take k)) a b ∧
-      (stateAt c tr k).ws.capOf c.cap = specCap c' (activeAfter (tr.take k))) := by
-  have hna : f ∉ activeAfter (tr.take k) :=
-    not_mem_foldl_actStep f _ [] (take_subset_no_fault k hno) (by simp)
+      (stateAt c tr k).ws.down e = decide (0 < specDown c'.faults (activeAfter c.faults (tr.take k)) e) ∧
+      (stateAt c tr k).ws.blocked a b = specBlocked c'.faults (activeAfter c.faults (tr.take k)) a b ∧
+      (stateAt c tr k).ws.latOf (c.baseLat a b) a b = specLat c' (activeAfter c.faults (tr.take k)) a b ∧
+      (stateAt c tr k).ws.lossOf (c.baseLoss a b) a b = specLoss c' (activeAfter c.faults (tr.take k)) a b ∧
+      (stateAt c tr k).ws.capOf c.cap = specCap c' (activeAfter c.faults (tr.take k))) := by
+  have hna : f ∉ activeAfter c.faults (tr.take k) :=
+    not_mem_foldl_actStep c.faults f _ [] (take_subset_no_fault k hno) (by simp)
   refine ⟨hna, ?_⟩
   intro c' e a b
   have h := effect_iff_active c tr k hwf hl
-  have hne : ∀ x ∈ activeAfter (tr.take k), x ≠ f := fun x hx hxf => hna (hxf ▸ hx)
-  have hk : ∀ x ∈ activeAfter (tr.take k), kindOf c'.faults x = kindOf c.faults x :=
+  have hne : ∀ x ∈ activeAfter c.faults (tr.take k), x ≠ f := fun x hx hxf => hna (hxf ▸ hx)
+  have hk : ∀ x ∈ activeAfter c.faults (tr.take k), kindOf c'.faults x = kindOf c.faults x :=
     fun x hx => kindOf_set_ne c.faults f x g (hne x hx)
   refine ⟨?_, ?_, ?_, ?_, ?_⟩
   · rw [h.down e]; unfold specDown
@@ -241,36 +243,90 @@ theorem cancelled_fault_is_noop (c : Case) (tr : List Pop) (k f : Nat) (g : Faul
         prodOver_congr _ (capDen c.faults) (capDen c'.faults)
           (fun x hx => by simp only [capDen, hk x hx])]
 
+/-! ### cancelling at any point of a fault's life -/
+
+/-- **cancel_before_activation_prevents** — "cancelling a fault handle before activation prevents
+    the fault entirely": if the handle of fault `f` is cancelled by the `i`-th processed event and no
+    event of `f` was processed before, then no event of `f` is ever processed and `f` is never active
+    (so, by `cancelled_fault_is_noop`, every effective setting at every point of the run is what it
+    would be with any other fault in its place).  Likewise for a handle cancelled before the run
+    starts — before or after the `Simulation` was built (`Case.initCanc`). -/
+theorem cancel_before_activation_prevents (c : Case) (tr : List Pop) (i t f : Nat) (hl : Legit c tr)
+    (hc : tr[i]? = some (.cancel t f) ∨ f ∈ c.initCanc)
+    (hbefore : ∀ t' a, Pop.fault t' f a ∉ tr.take i) :
+    (∀ t' a, Pop.fault t' f a ∉ tr) ∧ ∀ k, f ∉ activeAfter c.faults (tr.take k) := by
+  have hno : ∀ t' a, Pop.fault t' f a ∉ tr := by
+    rcases hc with hc | hc
+    · intro t' a hm
+      have hafter := legit_after_cancel c t f tr c.initCanc i hl hc t' a
+      rw [← List.take_append_drop (i + 1) tr] at hm
+      rcases List.mem_append.mp hm with h | h
+      · rw [List.take_add_one, hc] at h
+        rcases List.mem_append.mp h with h | h
+        · exact hbefore t' a h
+        · simp at h
+      · exact hafter h
+    · exact legit_no_fault_of_canc c f tr _ hl hc
+  exact ⟨hno, fun k => not_mem_foldl_actStep c.faults f _ [] (take_subset_no_fault k hno) (by simp)⟩
+
+/-- **cancel_is_silent** — the call of `FaultHandle.cancel()` itself changes no setting and no
+    window: a handle cancelled while its window is active leaves the window as it is (its end never
+    comes: `Legit`), a handle cancelled after the window ended changes nothing at all -/
+theorem cancel_is_silent (c : Case) (tr : List Pop) (k t f : Nat) (hp : tr[k]? = some (.cancel t f)) :
+    (stateAt c tr (k + 1)).ws = (stateAt c tr k).ws ∧
+    activeAfter c.faults (tr.take (k + 1)) = activeAfter c.faults (tr.take k) := by
+  refine ⟨?_, ?_⟩
+  · rw [stateAt_succ c tr k _ hp, step_cancel]
+  · rw [activeAfter_succ c.faults tr k _ hp]; rfl
+
+/-! ### direct calls of the Network's partition API between the scheduled windows -/
+
+/-- **heal_all_ends_every_partition** — `Network.heal_partition()` unblocks every direction, ends
+    exactly the partition windows that are open (scheduled and manual), and leaves crash state,
+    latency, loss and capacity as they are -/
+theorem heal_all_ends_every_partition (c : Case) (tr : List Pop) (k t : Nat)
+    (hp : tr[k]? = some (.healall t)) :
+    (∀ a b, (stateAt c tr (k + 1)).ws.blocked a b = false) ∧
+    (∀ e, (stateAt c tr (k + 1)).ws.down e = (stateAt c tr k).ws.down e) ∧
+    (∀ base a b, (stateAt c tr (k + 1)).ws.latOf base a b = (stateAt c tr k).ws.latOf base a b) ∧
+    (∀ base a b, (stateAt c tr (k + 1)).ws.lossOf base a b = (stateAt c tr k).ws.lossOf base a b) ∧
+    (∀ cap, (stateAt c tr (k + 1)).ws.capOf cap = (stateAt c tr k).ws.capOf cap) ∧
+    activeAfter c.faults (tr.take (k + 1)) =
+      (activeAfter c.faults (tr.take k)).filter (fun f => !isPartF c.faults f) := by
+  rw [stateAt_succ c tr k _ hp, step_healall, activeAfter_succ c.faults tr k _ hp]
+  refine ⟨fun a b => ?_, fun e => rfl, fun _ a b => rfl, fun _ a b => rfl, fun _ => rfl, rfl⟩
+  simp [WS.healAll, WS.blocked]
+
+/-- **stale_heal_is_noop** — the end of a window that is not active any more (a second
+    `Partition.heal()` on the same handle, a `heal()` or the scheduled end of a `NetworkPartition`
+    after `Network.heal_partition()` swept it) leaves the whole window state as it is: it cannot
+    take away the reference another, still active partition holds on the same pair -/
+theorem stale_heal_is_noop (c : Case) (tr : List Pop) (k t f : Nat) (hwf : WF c.faults tr)
+    (hl : Legit c tr) (hp : tr[k]? = some (.fault t f false))
+    (hna : f ∉ activeAfter c.faults (tr.take k)) :
+    (stateAt c tr (k + 1)).ws = (stateAt c tr k).ws ∧
+    activeAfter c.faults (tr.take (k + 1)) = activeAfter c.faults (tr.take k) := by
+  have hact : activeAfter c.faults (tr.take (k + 1)) = activeAfter c.faults (tr.take k) := by
+    rw [activeAfter_succ c.faults tr k _ hp]; exact List.erase_of_not_mem hna
+  refine ⟨?_, hact⟩
+  have h1 := inv_at c tr (k + 1) hwf hl
+  rw [hact] at h1
+  exact winv_unique c.faults _ _ _ h1 (inv_at c tr k hwf hl)
+
 /-! ### non-vacuity: a concrete plan with overlapping windows of every kind satisfies the hypotheses,
 and the conclusions say something about it -/
 
-def legitB (c : Case) (tr : List Pop) : Bool :=
-  tr.all fun p =>
-    match p with
-    | .fault _ f _ =>
-      match c.faults[f]? with
-      | some ft => !ft.cancelled
-      | none => false
-    | _ => true
-
-theorem legit_of_legitB (c : Case) (tr : List Pop) (h : legitB c tr = true) : Legit c tr := by
-  intro t f a hm
-  have := List.all_eq_true.mp h _ hm
-  simp only at this
-  cases hf : c.faults[f]? with
-  | none => simp [hf] at this
-  | some ft => exact ⟨ft, rfl, by simpa [hf] using this⟩
-
-instance (tr : List Pop) : Decidable (WF tr) := by unfold WF; exact inferInstance
+instance (fs : List Fault) (tr : List Pop) : Decidable (WF fs tr) := by unfold WF; exact inferInstance
+instance (c : Case) (tr : List Pop) : Decidable (Legit c tr) := by unfold Legit; exact inferInstance
 
 /-- crash [100, 800) ⊃ pause [200, 300) on worker 0; two partitions {0}|{1} [100,500) ⊃ [200,300);
     two latency windows on 0→1; one capacity window; one cancelled loss fault (index 7) -/
 def exCase : Case :=
   { n := 2, cap := 8, links := [⟨0, 1, 10, 0⟩, ⟨1, 0, 10, 0⟩],
-    faults := [⟨.crash 0, 100, some 800, false⟩, ⟨.pause 0, 200, some 300, false⟩,
-               ⟨.part false [0] [1], 100, some 500, false⟩, ⟨.part false [0] [1], 200, some 300, false⟩,
-               ⟨.lat 0 1 5, 100, some 500, false⟩, ⟨.lat 0 1 7, 200, some 300, false⟩,
-               ⟨.cap 1 2, 100, some 500, false⟩, ⟨.loss 0 1 1024, 50, some 60, true⟩],
+    faults := [⟨.crash 0, 100, some 800, false, false⟩, ⟨.pause 0, 200, some 300, false, false⟩,
+               ⟨.part false [0] [1], 100, some 500, false, false⟩, ⟨.part false [0] [1], 200, some 300, false, false⟩,
+               ⟨.lat 0 1 5, 100, some 500, false, false⟩, ⟨.lat 0 1 7, 200, some 300, false, false⟩,
+               ⟨.cap 1 2, 100, some 500, false, false⟩, ⟨.loss 0 1 1024, 50, some 60, true, false⟩],
     jobs := [⟨0, [.sleep 150, .emit 10]⟩, ⟨1, [.sleep 5]⟩, ⟨0, [.sleep 1]⟩],
     probes := [⟨0, 1⟩, ⟨1, 0⟩] }
 
@@ -286,35 +342,36 @@ def exTr : List Pop :=
    .fault 800 0 false,
    .job 900 2 false]                                  -- 21: after the restart
 
-example : WF exTr ∧ legitB exCase exTr = true := by decide
+example : WF exCase.faults exTr ∧ Legit exCase exTr := by decide
 
 /-- hypotheses of `crashed_executes_nothing` hold at step 5 (process in flight) and step 19
     (delivery), and at step 13 the pause has ended but the crash has not -/
 example :
-    (∃ f ∈ activeAfter (exTr.take 5), 0 < downC exCase.faults f 0) ∧
-    (∃ f ∈ activeAfter (exTr.take 19), 0 < downC exCase.faults f 0) ∧
-    activeAfter (exTr.take 13) = [6, 4, 2, 0] ∧
-    activeAfter (exTr.take 10) = [5, 3, 1, 6, 4, 2, 0] := by decide
+    (∃ f ∈ activeAfter exCase.faults (exTr.take 5), 0 < downC exCase.faults f 0) ∧
+    (∃ f ∈ activeAfter exCase.faults (exTr.take 19), 0 < downC exCase.faults f 0) ∧
+    activeAfter exCase.faults (exTr.take 13) = [6, 4, 2, 0] ∧
+    activeAfter exCase.faults (exTr.take 10) = [5, 3, 1, 6, 4, 2, 0] := by decide
 
 /-- the conclusions are not trivial: the run reaches states with stacked settings, and the process
     in flight (job 0, suspended in op 0) is not resumed at step 5 while the bystander runs -/
 example :
-    specLat exCase (activeAfter (exTr.take 10)) 0 1 = 22 ∧
-    specLat exCase (activeAfter (exTr.take 13)) 0 1 = 15 ∧
-    specBlocked exCase.faults (activeAfter (exTr.take 13)) 0 1 = true ∧
-    specCap exCase (activeAfter (exTr.take 13)) = 4 * SC ∧
-    specDown exCase.faults (activeAfter (exTr.take 13)) 0 = 1 ∧
+    specLat exCase (activeAfter exCase.faults (exTr.take 10)) 0 1 = 22 ∧
+    specLat exCase (activeAfter exCase.faults (exTr.take 13)) 0 1 = 15 ∧
+    specBlocked exCase.faults (activeAfter exCase.faults (exTr.take 13)) 0 1 = true ∧
+    specCap exCase (activeAfter exCase.faults (exTr.take 13)) = 4 * SC ∧
+    specDown exCase.faults (activeAfter exCase.faults (exTr.take 13)) 0 = 1 ∧
     (step exCase (stateAt exCase exTr 5) (.job 150 0 true)).2 = [] ∧
     (step exCase (stateAt exCase exTr 6) (.job 160 1 false)).2 = [.enter] ∧
     (step exCase (stateAt exCase exTr 13) (.nsend 350 0)).2 = [.part] ∧
     (step exCase (stateAt exCase exTr 19) (.recv 610 1)).2 = [] := by decide
 
+set_option maxRecDepth 8192 in
 /-- hypotheses of `all_ended_restores_base`, `restart_resumes`, `others_ungated` (step 6: worker 1
     has no window while worker 0 is crashed) and `cancelled_fault_is_noop` (fault 7) hold -/
 example :
-    activeAfter (exTr.take 21) = [] ∧
+    activeAfter exCase.faults (exTr.take 21) = [] ∧
     ((stateAt exCase exTr 21).procs 2).st = .idle ∧
-    (∀ f ∈ activeAfter (exTr.take 6), downC exCase.faults f 1 = 0) ∧
+    (∀ f ∈ activeAfter exCase.faults (exTr.take 6), downC exCase.faults f 1 = 0) ∧
     (step exCase (stateAt exCase exTr 21) (.job 900 2 false)).2 = [.enter] ∧
     (∀ p ∈ exTr, ∀ t a, p ≠ Pop.fault t 7 a) := by
   refine ⟨by decide, by decide, by decide, by decide, ?_⟩
@@ -329,6 +386,54 @@ instance (tr : List Pop) : Decidable (Sorted tr) := by unfold Sorted; exact infe
     time-ordered, and at step 13 (time 350) the crash window (100, 800) is strictly around it -/
 example :
     Sorted exTr ∧ exTr[13]? = some (.nsend 350 0) ∧ Pop.fault 100 0 true ∈ exTr ∧
-    Pop.fault 800 0 false ∈ exTr ∧ 0 ∈ activeAfter (exTr.take 13) := by decide
+    Pop.fault 800 0 false ∈ exTr ∧ 0 ∈ activeAfter exCase.faults (exTr.take 13) := by decide
+
+/-! ### non-vacuity of the handle / manual-call theorems -/
+
+/-- scheduled partition {0}|{1} [100, 400) (fault 0); a manual `Network.partition([0],[1])` at 300
+    (window 1), healed at 460 and again at 470; latency fault 2 whose handle is cancelled at 50, before
+    its start at 100; crash fault 3 whose handle is cancelled before the run; latency fault 4
+    [100, 500) whose handle is cancelled at 250, inside its window -/
+def exCase2 : Case :=
+  { n := 2, cap := 8, links := [⟨0, 1, 10, 0⟩, ⟨1, 0, 10, 0⟩],
+    faults := [⟨.part false [0] [1], 100, some 400, false, false⟩,
+               ⟨.part false [0] [1], 300, none, false, true⟩,
+               ⟨.lat 0 1 5, 100, some 500, false, false⟩,
+               ⟨.crash 0, 100, some 800, true, false⟩,
+               ⟨.lat 0 1 7, 100, some 500, false, false⟩],
+    probes := [⟨0, 1⟩] }
+
+def exTr2 : List Pop :=
+  [.cancel 50 2,                -- 0: before activation
+   .fault 100 0 true, .fault 100 4 true,
+   .healall 200,                -- 3: sweeps window 0, leaves the latency window
+   .cancel 250 4,               -- 4: inside the window: it never ends
+   .fault 300 1 true,           -- 5: manual partition on the same pair
+   .fault 400 0 false,          -- 6: scheduled end of the swept window: stale
+   .nsend 450 0,                -- 7: still blocked by window 1
+   .fault 460 1 false,          -- 8
+   .fault 470 1 false]          -- 9: repeated heal: stale
+
+example : WF exCase2.faults exTr2 ∧ Legit exCase2 exTr2 ∧ exCase2.initCanc = [3] := by decide
+
+/-- hypotheses of `cancel_before_activation_prevents` (fault 2 at event 0, fault 3 before the run),
+    `cancel_is_silent` (events 0 and 4), `heal_all_ends_every_partition` (event 3) and
+    `stale_heal_is_noop` (events 6 and 9) hold, and the conclusions are not trivial: the heal-all ends
+    window 0 but not the latency window 4, the stale end at event 6 leaves the pair blocked by the
+    manual window 1, and the window cancelled inside stays -/
+example :
+    exTr2[0]? = some (.cancel 50 2) ∧ (∀ t' a, Pop.fault t' 2 a ∉ exTr2.take 0) ∧
+    exTr2[3]? = some (.healall 200) ∧
+    activeAfter exCase2.faults (exTr2.take 3) = [4, 0] ∧
+    activeAfter exCase2.faults (exTr2.take 4) = [4] ∧
+    exTr2[6]? = some (.fault 400 0 false) ∧ 0 ∉ activeAfter exCase2.faults (exTr2.take 6) ∧
+    activeAfter exCase2.faults (exTr2.take 7) = [1, 4] ∧
+    specBlocked exCase2.faults (activeAfter exCase2.faults (exTr2.take 7)) 0 1 = true ∧
+    (step exCase2 (stateAt exCase2 exTr2 7) (.nsend 450 0)).2 = [.part] ∧
+    exTr2[9]? = some (.fault 470 1 false) ∧ 1 ∉ activeAfter exCase2.faults (exTr2.take 9) ∧
+    activeAfter exCase2.faults (exTr2.take 10) = [4] ∧
+    specLat exCase2 (activeAfter exCase2.faults (exTr2.take 10)) 0 1 = 17 := by
+  refine ⟨by decide, by simp, by decide, by decide, by decide, by decide, by decide, by decide,
+    by decide, by decide, by decide, by decide, by decide, by decide⟩
 
 end HappyModel.C06
